@@ -248,6 +248,10 @@ def expr(a, xs, Y, zs, e):
             v = xs[t[1]] * (1.0 if len(t) < 3 else t[2])
         elif op == 'vz':
             v = zs[t[1]] * (1.0 if len(t) < 3 else t[2])
+        elif op == 'T':
+            v = expr(a, xs, Y, zs, t[1]).T           # transpose of a sub-expression (2-D bi-affine arrays, decision rules)
+        elif op == 'reshape':
+            v = expr(a, xs, Y, zs, t[2]).reshape(tuple(t[1]))
         else:
             raise ValueError(op)
         tot = v if tot is None else tot + v
@@ -576,6 +580,18 @@ def core_specs():
         bounds=bx,
         rows=[dict(e=[['x', 0, [1, 1]], ['xz', 0, 0, [[1, 0], [0, 1]]]], sense='le', rhs=4)],
         obj=dict(kind='minmax', set=0, e=[['x', 0, [-1, -1]], ['xz', 0, 0, [[1, 0], [0, 1]]]]))
+    # 21b. transposes / reshapes of NON-SQUARE bi-affine arrays and decision rules inside robust rows
+    add('matrix-transpose', dv=[dict(shape=[2, 3])], rv=[[2, 3]], sets=[box(-0.5, 1)],
+        bounds=[dict(x=0, lo=-4, hi=4)],
+        rows=[dict(e=[['T', [['vx', 0], ['xmz', 0, 0]]]], sense='le', rhs=[[3, 4], [5, 3.5], [4.5, 6]]),
+              dict(e=[['reshape', [3, 2], [['vx', 0, 0.5], ['xmz', 0, 0]]]], sense='le', rhs=[[3, 5], [4, 6], [3.5, 4.5]])],
+        obj=dict(kind='minmax', set=0, e=[['x', 0, [[-1, -2, -1], [-1.5, -1, -2]]], ['z', 0, [[0.25, 0, 0], [0, 0, 0.5]]]]))
+    add('ldr-transpose', dv=[dict(shape=[2, 3])], rv=[[3]], ldr=[dict(shape=[2, 3], deps=[dict(z=0)])], sets=[box(-1, 1)],
+        bounds=[dict(x=0, lo=-4, hi=4)],
+        rows=[dict(e=[['T', [['vy', 0]]], ['c', [[0, -1], [-2, 0], [1, 1]]]], sense='ge', rhs=0),
+              dict(e=[['vy', 0], ['vx', 0, -1.0], ['vz', 0, -1.0]], sense='ge', rhs=0),
+              dict(e=[['vy', 0]], sense='le', rhs=6)],
+        obj=dict(kind='minmax', set=0, e=[['x', 0, [[1, 2, 1], [1.5, 1, 2]]], ['y', 0, [[0.5, 0.25, 0.5], [0.25, 0.5, 0.25]]]]))
     # 22. scalar random variable and scalar decision (0-d shapes)
     add('scalar', dv=[dict(shape=[]), dict(shape=[])], rv=[[]], sets=[box(-0.5, 1.5)],
         bounds=[dict(x=0, lo=-4, hi=4), dict(x=1, lo=-4, hi=4)],
